@@ -4,6 +4,8 @@ import (
 	"encoding/json"
 	"fmt"
 	"os"
+
+	"github.com/ovn-org/libovsdb/ovsdb"
 	"sort"
 	"strings"
 
@@ -102,10 +104,11 @@ func witness(m *dyn.Model, pre *ref.DB, ops []ref.Op, extra map[string]interface
 
 // Machine is the machine-readable part of a witness.
 type Machine struct {
-	Schema  *tspace.Schema                 `json:"schema"`
+	Schema  *tspace.Schema                `json:"schema"`
 	Pre     map[string]map[string]ref.Row `json:"pre"`
-	Ops     []ref.Op                       `json:"ops"`
-	History [][]ref.Op                     `json:"history,omitempty"` // transactions executed on the same database object before Ops
+	Ops     []ref.Op                      `json:"ops"`
+	History [][]ref.Op                    `json:"history,omitempty"` // transactions executed on the same database object before Ops
+	Wire    json.RawMessage               `json:"wire,omitempty"`    // wire operations (used instead of Ops when present)
 }
 
 // LoadMachine reads the machine-readable witness out of a replay file.
@@ -188,6 +191,30 @@ func DebugReplay(path string) int {
 		}
 	}
 	fmt.Println("signature:", sig)
+	if len(mc.Wire) > 0 {
+		var wire []ovsdb.Operation
+		if err := json.Unmarshal(mc.Wire, &wire); err != nil {
+			fmt.Println("cannot decode wire ops:", err)
+			return 2
+		}
+		seen := map[string]int{}
+		for i := 0; i < 12; i++ {
+			e2, err := loadState(m, pre)
+			if err != nil {
+				fmt.Println("cannot load state:", err)
+				return 2
+			}
+			b, _ := json.Marshal(wire)
+			var w2 []ovsdb.Operation
+			_ = json.Unmarshal(b, &w2)
+			rep := e2.TransactWire(w2, true)
+			seen[canonReply(rep)]++
+		}
+		for k, n := range seen {
+			fmt.Printf("%d x reply: %s\n", n, k)
+		}
+		return 0
+	}
 	out := pre.Transact(cloneOps(mc.Ops))
 	fmt.Printf("reference: failed=%v results=%+v commitErr=%q %s outOfDomain=%q\n", out.Failed(), out.Results, out.CommitErr, out.CommitWhy, out.OutOfDom)
 	rep, err := e.Transact(mc.Ops, true)
